@@ -298,7 +298,20 @@ def check_no_moves_among(prev, new, group, kind):
 SCRAM_HASHES = {"SCRAM-SHA-256": "sha256", "SCRAM-SHA-512": "sha512"}
 
 
+_HI_CACHE = {}
+
+
 def _hi(hashname: str, password: bytes, salt: bytes, i: int) -> bytes:
+    key = (hashname, password, salt, i)
+    v = _HI_CACHE.get(key)
+    if v is None:
+        if len(_HI_CACHE) > 256:
+            _HI_CACHE.clear()
+        v = _HI_CACHE[key] = _hi_uncached(hashname, password, salt, i)
+    return v
+
+
+def _hi_uncached(hashname: str, password: bytes, salt: bytes, i: int) -> bytes:
     """RFC 5802 Hi(): U1 = HMAC(str, salt + INT(1)); Ui = HMAC(str, Ui-1); xor of all.
     Written out (not pbkdf2_hmac) for small i so that the oracle does not share the library's
     primitive; falls back to pbkdf2_hmac (same function by RFC 5802 section 2.2) above 64 rounds
@@ -364,6 +377,42 @@ def unescape_saslname(s: str):
     return "".join(out), None
 
 
+NONCE_TAMPERS = ["drop_client_part", "flip_first_char", "flip_last_char_of_client_part", "flip_middle_char",
+                 "truncate_client_part", "prefix_garbage", "swap_case", "client_part_after_server_part",
+                 "empty", "reverse_client_part"]
+
+
+def _flip_char(c: str) -> str:
+    return "A" if c != "A" else "B"
+
+
+def tampered_nonce(kind: str, client: str, ext: str) -> str:
+    """A combined nonce that is NOT client + something (callers verify with startswith and skip
+    the rare coincidences)."""
+    if kind == "drop_client_part":
+        return ext
+    if kind == "flip_first_char":
+        return _flip_char(client[0]) + client[1:] + ext
+    if kind == "flip_last_char_of_client_part":
+        return client[:-1] + _flip_char(client[-1]) + ext
+    if kind == "flip_middle_char":
+        m = len(client) // 2
+        return client[:m] + _flip_char(client[m]) + client[m + 1:] + ext
+    if kind == "truncate_client_part":
+        return client[:-1] + ext
+    if kind == "prefix_garbage":
+        return "x" + client + ext
+    if kind == "swap_case":
+        return client.swapcase() + ext
+    if kind == "client_part_after_server_part":
+        return ext + client
+    if kind == "empty":
+        return ""
+    if kind == "reverse_client_part":
+        return client[::-1] + ext
+    raise ValueError(kind)
+
+
 class ScramServer:
     """One RFC 5802 exchange, server side.
 
@@ -400,6 +449,7 @@ class ScramServer:
         self.server_first_wire = None  # as the client saw it
         self.sent_signature = None
         self.true_signature = None
+        self.tampered_nonce_extends = False
 
     # -- helpers -------------------------------------------------------------------------
     def _H(self, b):
@@ -449,7 +499,9 @@ class ScramServer:
         if self.mode == "tamper" and self.tamper[0] in ("nonce", "salt", "iterations"):
             field, how = self.tamper
             if field == "nonce":
-                wire = f"r={how},s={salt_b64},i={self.iterations}"
+                bad = tampered_nonce(how, self.client_nonce, self.nonce_ext)
+                self.tampered_nonce_extends = bad.startswith(self.client_nonce)
+                wire = f"r={bad},s={salt_b64},i={self.iterations}"
             elif field == "salt":
                 wire = f"r={combined},s={base64.b64encode(how).decode()},i={self.iterations}"
             elif field == "iterations":
